@@ -377,33 +377,7 @@ func checkDescriptor(init *mp4.InitSegment, o *op, wit string) {
 	case 'V', 'H':
 		checkConfig(t, e, o, false, true, wit)
 	case 'C':
-		a, ok := e.(*mp4.AudioSampleEntryBox)
-		if !ok || a.Type() != "mp4a" || a.Esds == nil {
-			fail("SetAACDescriptor", "entry-type", wit, "no mp4a/esds")
-			return
-		}
-		asc, err := aac.DecodeAudioSpecificConfig(bytes.NewReader(a.Esds.DecConfigDescriptor.DecSpecificInfo.DecConfig))
-		if err != nil {
-			fail("SetAACDescriptor", "asc-undecodable", wit, "AudioSpecificConfig in esds does not decode: "+err.Error())
-			return
-		}
-		wantCh := 2
-		if o.objType == aac.HEAACv2 {
-			wantCh = 1
-		}
-		if asc.ObjectType != o.objType || asc.SamplingFrequency != o.freq || int(asc.ChannelConfiguration) != wantCh {
-			fail("SetAACDescriptor", "asc-content", wit, fmt.Sprintf("ASC says type %d freq %d ch %d", asc.ObjectType, asc.SamplingFrequency, asc.ChannelConfiguration))
-		}
-		if (o.objType != aac.AAClc) != asc.SBRPresentFlag || (o.objType == aac.HEAACv2) != asc.PSPresentFlag ||
-			(o.objType != aac.AAClc && asc.ExtensionFrequency != 2*o.freq) {
-			fail("SetAACDescriptor", "asc-extension", wit, "SBR/PS/extension frequency differ from the object type supplied")
-		}
-		if int(a.ChannelCount) != wantCh || a.SampleSize != 16 {
-			fail("SetAACDescriptor", "entry-channels", wit, "mp4a channel count / sample size")
-		}
-		if int(a.SampleRate) != o.freq {
-			fail("SetAACDescriptor", "samplerate-wraps-uint16", wit, fmt.Sprintf("mp4a sample rate %d for sampling frequency %d", a.SampleRate, o.freq))
-		}
+		checkAAC(e, o, wit, "")
 	case '3':
 		a, ok := e.(*mp4.AudioSampleEntryBox)
 		if !ok || a.Type() != "ac-3" || a.Dac3 == nil {
@@ -452,6 +426,43 @@ func checkDescriptor(init *mp4.InitSegment, o *op, wit string) {
 		if !ok || s.Namespace != want || s.SchemaLocation != o.s2 || s.AuxiliaryMimeTypes != o.s3 {
 			fail("SetStppDescriptor", "content", wit, "stpp strings differ from those supplied")
 		}
+	}
+}
+
+// checkAAC: the mp4a entry e (of the built init, or with suffix "-decoded" of the DECODED init) carries in its typed esds
+// (ES descriptor -> DecoderConfigDescriptor -> DecSpecificInfo) an AudioSpecificConfig that reads back as the configuration
+// supplied to SetAACDescriptor (theorems C19_descriptor_aac_typed / C19_decoded_init_aac)
+func checkAAC(e mp4.Box, o *op, wit, sfx string) {
+	a, ok := e.(*mp4.AudioSampleEntryBox)
+	if !ok || a.Type() != "mp4a" || a.Esds == nil || a.Esds.DecConfigDescriptor == nil || a.Esds.DecConfigDescriptor.DecSpecificInfo == nil {
+		fail("SetAACDescriptor", "entry-type"+sfx, wit, "no mp4a/esds with a DecSpecificInfo")
+		return
+	}
+	if sfx != "" && (a.Esds.EsID != 1 || a.Esds.DecConfigDescriptor.ObjectType != 0x40 || a.Esds.DecConfigDescriptor.StreamType != 0x15 ||
+		a.Esds.SLConfigDescriptor == nil || a.Esds.SLConfigDescriptor.ConfigValue != 2) {
+		fail("SetAACDescriptor", "esds-tree"+sfx, wit, "decoded esds: ES id / object type 0x40 / stream type 0x15 / SLConfig 2 differ")
+	}
+	asc, err := aac.DecodeAudioSpecificConfig(bytes.NewReader(a.Esds.DecConfigDescriptor.DecSpecificInfo.DecConfig))
+	if err != nil {
+		fail("SetAACDescriptor", "asc-undecodable"+sfx, wit, "AudioSpecificConfig in esds does not decode: "+err.Error())
+		return
+	}
+	wantCh := 2
+	if o.objType == aac.HEAACv2 {
+		wantCh = 1
+	}
+	if asc.ObjectType != o.objType || asc.SamplingFrequency != o.freq || int(asc.ChannelConfiguration) != wantCh {
+		fail("SetAACDescriptor", "asc-content"+sfx, wit, fmt.Sprintf("ASC says type %d freq %d ch %d", asc.ObjectType, asc.SamplingFrequency, asc.ChannelConfiguration))
+	}
+	if (o.objType != aac.AAClc) != asc.SBRPresentFlag || (o.objType == aac.HEAACv2) != asc.PSPresentFlag ||
+		(o.objType != aac.AAClc && asc.ExtensionFrequency != 2*o.freq) {
+		fail("SetAACDescriptor", "asc-extension"+sfx, wit, "SBR/PS/extension frequency differ from the object type supplied")
+	}
+	if int(a.ChannelCount) != wantCh || a.SampleSize != 16 {
+		fail("SetAACDescriptor", "entry-channels"+sfx, wit, "mp4a channel count / sample size")
+	}
+	if sfx == "" && int(a.SampleRate) != o.freq {
+		fail("SetAACDescriptor", "samplerate-wraps-uint16", wit, fmt.Sprintf("mp4a sample rate %d for sampling frequency %d", a.SampleRate, o.freq))
 	}
 }
 
@@ -554,6 +565,8 @@ func checkRoundTrip(init *mp4.InitSegment, adds []*op, descs [][]*op, wit string
 		for j, e := range es {
 			if o := descs[i][j]; o.kind == 'V' || o.kind == 'H' {
 				checkConfig(t, e, o, true, j == lastVisual, wit)
+			} else if o.kind == 'C' {
+				checkAAC(e, o, wit, "-decoded")
 			}
 		}
 	}
